@@ -130,7 +130,8 @@ def bufOp? (s : String) : Option BufOp :=
   match s.splitOn ":" with
   | ["s", q, t] => do some (.sent 7 (← u16? q) (← nat? t))     -- the harness' primary stream has SSRC 7
   | ["x", a, q, t] => do some (.sent (← u32? a) (← u16? q) (← nat? t))
-  | ["r", a] => do some (.setRtx (← u32? a))
+  | ["r", a] => do let s ← u32? a; some (.setRtx (if s = 0 then none else some s))   -- `r:0` = `set_rtx(None)`
+  | ["R", a] => do some (.setRtx (some (← u32? a)))                                   -- `set_rtx(Some{..})`, any SSRC
   | ["q", t, qs] => do some (.query (← nat? t) (← mapM? u16? (listOf qs ";")))
   | ["n", t, qs] => do some (.nack (← nat? t) (← mapM? u16? (listOf qs ";")))
   | _ => none
@@ -195,7 +196,7 @@ def handle (stream : String) (args : List String) : String :=
     | none => "bad-pkt"
     | some p =>
       -- `marshal_into` skips `validate` and always produces the bytes
-      s!"{showRes hex (marshalPacket p)} into:{hex (writeHeader p.hdr (p.padLen != 0) ++ p.payload ++ List.replicate p.padLen.toNat p.padLen)}"
+      s!"{showRes hex (marshalPacket p)} into:{hex (marshalInto p)}"
   | "ext_get", [e, id] =>
     match ext? e, u8? id with
     | some ex, some i =>
@@ -257,6 +258,22 @@ def handle (stream : String) (args : List String) : String :=
     match mapM? pair? (listOf apt ";"), (if rs = "-" then some none else (u32? rs).map some), u32? ssrc, pkt? t with
     | some m, some r, some s, some p =>
       (match maybeUnwrap m r s p with | none => "none" | some q => "some " ++ showPkt q)
+    | _, _, _, _ => "bad-args"
+  | "rtx_sdp", [rp, fm, fid, ss, t] =>
+    -- the receiver `set_remote_description` builds from `a=fmtp:<rp> <fm>`, `a=ssrc-group:FID p r`, `a=ssrc:<s>` lines
+    let fid? : Option (Option (UInt32 × UInt32)) :=
+      if fid = "-" then some none else match fid.splitOn ":" with | [a, b] => (do some (some (← u32? a, ← u32? b))) | _ => none
+    match u8? rp, unhex fm, fid?, mapM? u32? (listOf ss ";"), pkt? t with
+    | some r, some f, some g, some sl, some p =>
+      let st := sdpRx [(fmtpKey, some (decNat r.toNat ++ [0x20] ++ f))] g sl
+      (match maybeUnwrap st.apt st.rtxSsrc st.ssrc p with | none => "none" | some q => "some " ++ showPkt q)
+    | _, _, _, _, _ => "bad-args"
+  | "rtx_loop", apt :: rs :: ssrc :: ts =>
+    let pair? := fun (s : String) => match s.splitOn ":" with | [a, b] => (do some (← u8? a, ← u8? b) : Option (UInt8 × UInt8)) | _ => none
+    match mapM? pair? (listOf apt ";"), (if rs = "-" then some none else (u32? rs).map some), u32? ssrc, mapM? pkt? ts with
+    | some m, some r, some s, some ps =>
+      let o := rxRun ⟨m, r, s⟩ ps
+      " ".intercalate (o.1.map fun x => match x with | none => "none" | some q => showPkt q) ++ s!" #{o.2.toNat}"
     | _, _, _, _ => "bad-args"
   | "is_rtcp", [hx] =>
     match unhex hx with
